@@ -596,6 +596,11 @@ func runC16graph(t *vf.T, c c16graph) {
 				t.Count("graph_give_ups_after_kill", 1)
 				return
 			}
+			if ls.lossesNotCausedByMonitor(killed, true) {
+				// a live machine's keepalive timed out (starved host): an error is acceptable
+				t.Count("graph_runs_with_machine_losses_not_caused_by_the_monitor", 1)
+				return
+			}
 			t.Violate(sig+" run-failed", fmt.Sprintf("Func %d over results %v of the graph %v failed: %v | library log: %s", i+1, l, c.Links, e, logTail(12)))
 			return
 		}
